@@ -1,98 +1,46 @@
-(* C02 -- InversionMethod + StatesManager over an enumeration WITH inadmissible indices (n-d grids, boundaries):
-   for every reachable state of the machine the state returned for u is the one the sequential search over the
-   ADMISSIBLE sub-enumeration G = [i <= F | inside (proj i)] returns, i.e. inv_step = locate_r over the segments
-   (prob (proj i), i), i in G -- provided the restart that StatesManager performs when x == _max_storage lands on the
-   right admissible index:
-       reset_ok :  M = j <= |G|  ->  admissible indices >= j  =  G without its first j elements.
-   reset_ok holds when every index is admissible (1-d chains, centred square grids with Szudzik) and when the storage
-   never fills (M > |G|); it fails exactly in the situation of F-C02-7 (C02_inversion_overflow_refuted).
-   Uses the StatesManager facts of C14 (sm_G, sm_G_head, sm_good_spec). *)
+(* C02 -- InversionMethod + StatesManager (repaired tree a073fcb) over ANY enumeration, with inadmissible indices:
+   for every reachable state of the machine (any sequence of earlier draws, any _max_storage >= 1, any number of
+   restarts after the storage is full) the state returned for u is the one the sequential search over the ADMISSIBLE
+   sub-enumeration G = [i <= F | not outside (proj i)] returns, i.e. inv_step = locate_r over the segments
+   (prob (proj i), i), i in G.  The StatesManager part is C14's sm_step_protocol: under InversionMethod's calling
+   protocol the call with rank x returns the x-th admissible index. *)
 From Coq Require Import List Arith ZArith QArith Bool Lia Lqa.
-From RV Require Import Base.QB Gen.GenPairing Model.Pairing Model.StepLaw Model.Huffman Model.Inversion Model.StatesManager
+From RV Require Import Base.QB Gen.GenPairing Model.Pairing Model.StepLaw Model.Huffman Model.StatesManager Model.Inversion
   Proofs.C02_StepLaw Proofs.C02_Inversion Proofs.C14_Lazy Proofs.C14_StatesManager.
 Import ListNotations.
 Open Scope Q_scope.
 
-Lemma skipn_S_tail {A} (l : list A) : forall n x r, skipn n l = x :: r -> skipn (S n) l = r.
-Proof.
-  induction l as [|y l IH]; intros [|n] x r H; simpl in *; try discriminate.
-  - inversion H. reflexivity.
-  - apply (IH n x r H).
-Qed.
-
 Section InversionAdmissible.
   Context {S : Type}.
   Variable proj : Z -> S.
-  Variable inside : S -> bool.
+  Variable outside : S -> bool.
   Variable F : Z.
   Variable prob : S -> Q.
   Variable M : Z.
   Hypothesis prob_nonneg : forall s, 0 <= prob s.
   Hypothesis storage_pos : (1 <= M)%Z.
 
-  Let outside (s : S) : bool := negb (inside s).
   Definition G : list Z := sm_good S proj outside F.               (* admissible indices of [0, F], increasing *)
-  Definition GG (a : Z) : list Z := sm_G S proj outside F a.       (* admissible indices of [a, F] *)
   Let Gn : nat := length G.
   Definition g (j : nat) : Z := nth j G 0%Z.
 
-  Hypothesis reset_ok : forall j, Z.of_nat j = M -> (j <= Gn)%nat -> GG (Z.of_nat j) = skipn j G.
-
-  (* ---------- StatesManager: the model's search in terms of the admissible indices ---------- *)
-  Lemma my_search_spec fuel : forall xx, (F + 2 - xx <= Z.of_nat fuel)%Z ->
-    Inversion.sm_search proj inside F fuel xx =
-      match GG xx with [] => (None, Z.max xx (F + 1)) | i :: _ => (Some (proj i), i) end.
+  Lemma nth_error_G j : nth_error G j = if (j <? Gn)%nat then Some (g j) else None.
   Proof.
-    induction fuel as [|f IH]; intros xx Hf; simpl.
-    - assert (Hx : (F < xx)%Z) by lia. unfold GG. rewrite (sm_G_empty S proj outside F xx Hx). rewrite Z.max_l by lia. reflexivity.
-    - destruct (xx <=? F)%Z eqn:L.
-      + apply Z.leb_le in L. unfold GG. rewrite sm_G_unfold by lia. unfold sm_ok. change (outside (proj xx)) with (negb (inside (proj xx))).
-        destruct (inside (proj xx)); cbn [negb]; [reflexivity|]. fold (GG (xx + 1)). rewrite IH by lia.
-        destruct (GG (xx + 1)); [|reflexivity]. replace (Z.max (xx + 1) (F + 1)) with (Z.max xx (F + 1)) by lia. reflexivity.
-      + apply Z.leb_gt in L. unfold GG. rewrite sm_G_empty by lia. rewrite Z.max_l by lia. reflexivity.
+    destruct (j <? Gn)%nat eqn:E.
+    - apply Nat.ltb_lt in E. unfold g. apply nth_error_nth'. assumption.
+    - apply Nat.ltb_ge in E. apply nth_error_None. assumption.
   Qed.
 
-  Lemma GG_head a i rest : GG a = i :: rest -> (a <= i <= F)%Z /\ inside (proj i) = true /\ rest = GG (i + 1).
+  (* the calling protocol of InversionMethod (C14: sm_protocol): after a call with rank prev, the next call has rank x *)
+  Definition proto (prev x : Z) : Prop :=
+    (x = prev + 1 \/ (x = M /\ M <= prev) \/ (x = prev /\ 0 <= prev /\ Z.of_nat Gn <= prev))%Z.
+
+  Lemma call_next prev sm x : (-1 <= prev)%Z -> sm_inv S proj outside F M prev sm -> proto prev x ->
+    fst (sm_step_index S proj outside F sm x M) = nth_error G (Z.to_nat x)
+    /\ sm_inv S proj outside F M x (snd (sm_step_index S proj outside F sm x M)).
   Proof.
-    intro H. destruct (sm_G_head S proj outside F a i rest H) as (H1 & H2 & H3). split; [assumption|]. split; [|assumption].
-    unfold sm_ok, outside in H2. destruct (inside (proj i)); [reflexivity | discriminate].
+    intros Hp I Px. apply (sm_step_protocol S proj outside F M prev sm x M storage_pos Hp I); [left; reflexivity | exact Px].
   Qed.
-
-  (* the condition under which the call with x = n returns the n-th admissible index *)
-  Definition NextInv (n : nat) (lpi : Z) : Prop :=
-    (Z.of_nat n = M /\ (n <= Gn)%nat) \/ (Z.of_nat n <> M /\ (Z.of_nat n <= lpi + 1)%Z /\ GG (lpi + 1) = skipn n G).
-
-  Lemma project_next n lpi : NextInv n lpi ->
-    match skipn n G with
-    | [] => exists lpi', sm_project proj inside F M (Z.of_nat n) lpi = (None, lpi') /\ (F < lpi')%Z /\ (Z.of_nat n <= lpi')%Z
-    | i :: _ => sm_project proj inside F M (Z.of_nat n) lpi = (Some (proj i), i) /\ (Z.of_nat n <= i)%Z /\ GG (i + 1) = skipn (Datatypes.S n) G
-    end.
-  Proof.
-    intros [[E Hn] | (NE & Hl & HG)]; unfold sm_project.
-    - assert ((Z.of_nat n =? M)%Z = true) as -> by (apply Z.eqb_eq; assumption).
-      rewrite Z.max_l by lia. rewrite my_search_spec by lia. rewrite (reset_ok n E Hn).
-      destruct (skipn n G) as [|i rest] eqn:Es.
-      + eexists. split; [reflexivity|]. lia.
-      + pose proof (reset_ok n E Hn) as R. rewrite Es in R. destruct (GG_head _ _ _ R) as (H1 & _ & H3).
-        split; [reflexivity|]. split; [lia|]. rewrite <- H3. symmetry. eapply skipn_S_tail. exact Es.
-    - assert ((Z.of_nat n =? M)%Z = false) as -> by (apply Z.eqb_neq; assumption).
-      rewrite Z.max_r by lia. rewrite my_search_spec by lia. rewrite HG.
-      destruct (skipn n G) as [|i rest] eqn:Es.
-      + eexists. split; [reflexivity|]. lia.
-      + destruct (GG_head _ _ _ HG) as (H1 & _ & H3).
-        split; [reflexivity|]. split; [lia|]. rewrite <- H3. symmetry. eapply skipn_S_tail. exact Es.
-  Qed.
-
-  Lemma skipn_g n : (n < Gn)%nat -> exists rest, skipn n G = g n :: rest.
-  Proof.
-    intro H. unfold g. destruct (skipn n G) as [|i rest] eqn:E.
-    - exfalso. assert (length (skipn n G) = (Gn - n)%nat) by apply skipn_length. rewrite E in H0. simpl in H0. unfold Gn in *. lia.
-    - exists rest. f_equal. rewrite <- (firstn_skipn n G) at 1. rewrite app_nth2; rewrite firstn_length_le by (unfold Gn in H; lia); [|lia].
-      rewrite Nat.sub_diag, E. reflexivity.
-  Qed.
-
-  Lemma skipn_all n : (Gn <= n)%nat -> skipn n G = [].
-  Proof. intro H. apply skipn_all2. assumption. Qed.
 
   (* ---------- cumulative sums over the admissible enumeration, exactly as the code forms them ---------- *)
   Definition P (j : nat) : Q := prob (proj (g j)).
@@ -183,42 +131,45 @@ Section InversionAdmissible.
   End Spec.
 
   (* ---------- invariant of the reachable states ---------- *)
+  (* n sums are stored; prev is the rank of the last StatesManager call; the next call (rank n) obeys the protocol *)
   Definition Inv (st : @ist S) : Prop :=
-    exists n, (1 <= n <= Gn)%nat /\ (Z.of_nat n <= M)%Z /\ i_cum st = cums n /\ i_states st = sts n /\ NextInv n (i_lpi st).
+    exists n prev, (1 <= n <= Gn)%nat /\ (Z.of_nat n <= M)%Z /\ i_cum st = cums n /\ i_states st = sts n
+                   /\ (-1 <= prev)%Z /\ sm_inv S proj outside F M prev (i_sm st) /\ proto prev (Z.of_nat n).
 
-  Lemma loop_correct u : forall fuel xn n st out,
+  Lemma Inv_intro st n prev : (1 <= n <= Gn)%nat -> (Z.of_nat n <= M)%Z -> i_cum st = cums n -> i_states st = sts n ->
+    (-1 <= prev)%Z -> sm_inv S proj outside F M prev (i_sm st) -> proto prev (Z.of_nat n) -> Inv st.
+  Proof. intros. exists n, prev. repeat (split; [assumption|]). assumption. Qed.
+
+  Lemma loop_correct u : forall fuel xn n prev st out,
     (1 <= n <= Gn)%nat -> (Z.of_nat n <= M)%Z -> i_cum st = cums n -> i_states st = sts n ->
     (n = Datatypes.S xn \/ (Z.of_nat n = M /\ (n <= Datatypes.S xn)%nat)) -> (Datatypes.S xn <= Gn)%nat ->
-    NextInv (Datatypes.S xn) (i_lpi st) ->
+    (-1 <= prev)%Z -> sm_inv S proj outside F M prev (i_sm st) -> proto prev (Z.of_nat (Datatypes.S xn)) -> proto prev (Z.of_nat n) ->
     (Gn + 1 - xn <= fuel)%nat ->
-    let r := inv_loop proj inside F prob M fuel u (csum (Datatypes.S xn)) (Z.of_nat xn) st out in
+    let r := inv_loop proj outside F prob M fuel u (csum (Datatypes.S xn)) (Z.of_nat xn) st out in
     snd r = (if Qltb (csum (Datatypes.S xn)) u then out_of (search u (Gn - Datatypes.S xn) (Datatypes.S xn)) else out)
     /\ Inv (fst r).
   Proof.
-    induction fuel as [|f IH]; intros xn n st out Hn HnM Hc Hs Hst Hx Hl Hf; [lia|].
+    induction fuel as [|f IH]; intros xn n prev st out Hn HnM Hc Hs Hst Hx Hprev I Px Pn Hf; [lia|].
     cbn [inv_loop]. destruct (Qltb (csum (Datatypes.S xn)) u) eqn:C.
-    2:{ simpl. split; [reflexivity|]. exists n. repeat split; try assumption; try lia.
-        destruct Hst as [Hst|[Hst Hle]]; [rewrite Hst; assumption|]. left. split; [assumption | lia]. }
+    2:{ cbn [fst snd]. split; [reflexivity|]. apply (Inv_intro st n prev); assumption. }
     replace (Z.of_nat xn + 1)%Z with (Z.of_nat (Datatypes.S xn)) by lia.
-    pose proof (project_next (Datatypes.S xn) (i_lpi st) Hl) as PN.
+    destruct (call_next prev (i_sm st) (Z.of_nat (Datatypes.S xn)) Hprev I Px) as [E I'].
+    rewrite Nat2Z.id, nth_error_G in E.
+    set (r := sm_step_index S proj outside F (i_sm st) (Z.of_nat (Datatypes.S xn)) M) in *.
     destruct (Nat.eq_dec (Datatypes.S xn) Gn) as [EF|NF].
     - (* the admissible enumeration is exhausted: break_here *)
-      rewrite (skipn_all (Datatypes.S xn)) in PN by lia. destruct PN as (lpi' & E & Hl' & Hl2).
-      rewrite E. cbn [fst snd]. rewrite EF, Nat.sub_diag. cbn [search out_of]. split; [reflexivity|].
-      exists n. cbn [i_cum i_states i_lpi]. repeat split; try assumption; try lia.
-      destruct Hst as [Hst|[Hst Hle]].
-      + destruct (Z.eq_dec (Z.of_nat n) M) as [EM|NM]; [left; split; [assumption | lia]|].
-        right. split; [assumption|]. split; [lia|]. unfold GG. rewrite sm_G_empty by lia. symmetry. apply skipn_all. lia.
-      + left. split; [assumption | lia].
-    - destruct (skipn_g (Datatypes.S xn) ltac:(lia)) as (rest & Es). rewrite Es in PN. destruct PN as (E & Hi & HG').
-      rewrite E. change (csum (Datatypes.S xn) + prob (proj (g (Datatypes.S xn)))) with (csum (Datatypes.S (Datatypes.S xn))).
+      assert ((Datatypes.S xn <? Gn)%nat = false) as Hlt by (apply Nat.ltb_ge; lia). rewrite Hlt in E. rewrite E.
+      cbn [fst snd]. rewrite EF, Nat.sub_diag. cbn [search out_of]. split; [reflexivity|].
+      apply (Inv_intro _ n (Z.of_nat (Datatypes.S xn))); cbn [i_cum i_states i_sm]; try assumption; try lia.
+      unfold proto. destruct Hst as [Hst|[Hst Hle]]; [right; right; lia|].
+      destruct (Nat.eq_dec n (Datatypes.S xn)); [right; right; lia | right; left; lia].
+    - assert ((Datatypes.S xn <? Gn)%nat = true) as Hlt by (apply Nat.ltb_lt; lia). rewrite Hlt in E. rewrite E.
+      change (csum (Datatypes.S xn) + prob (proj (g (Datatypes.S xn)))) with (csum (Datatypes.S (Datatypes.S xn))).
       replace (Gn - Datatypes.S xn)%nat with (Datatypes.S (Gn - Datatypes.S (Datatypes.S xn))) by lia. cbn [search].
       assert (Hq : forall (A : Type) (x y : A), (if Qle_bool u (csum (Datatypes.S (Datatypes.S xn))) then x else y)
                    = (if Qltb (csum (Datatypes.S (Datatypes.S xn))) u then y else x)).
       { intros A x y. unfold Qltb. destruct (Qle_bool u (csum (Datatypes.S (Datatypes.S xn)))); reflexivity. }
-      assert (NI : forall lp, lp = g (Datatypes.S xn) -> NextInv (Datatypes.S (Datatypes.S xn)) lp).
-      { intros lp ->. destruct (Z.eq_dec (Z.of_nat (Datatypes.S (Datatypes.S xn))) M) as [EM|NM]; [left; split; [assumption | lia]|].
-        right. split; [assumption|]. split; [lia | exact HG']. }
+      assert (P2 : proto (Z.of_nat (Datatypes.S xn)) (Z.of_nat (Datatypes.S (Datatypes.S xn)))) by (unfold proto; left; lia).
       unfold zlen. rewrite Hc, cums_length.
       destruct (Z.of_nat n <? M)%Z eqn:LM.
       + apply Z.ltb_lt in LM. destruct Hst as [Hst|[Hst _]]; [|lia].
@@ -229,9 +180,10 @@ Section InversionAdmissible.
         assert (A4 : i_states st1 = sts (Datatypes.S n)) by (unfold st1; cbn [i_states]; rewrite ?Hs, sts_S; subst n; reflexivity).
         assert (A5 : Datatypes.S n = Datatypes.S (Datatypes.S xn) \/ (Z.of_nat (Datatypes.S n) = M /\ (Datatypes.S n <= Datatypes.S (Datatypes.S xn))%nat)) by (left; lia).
         assert (A6 : (Datatypes.S (Datatypes.S xn) <= Gn)%nat) by lia.
-        assert (A7 : NextInv (Datatypes.S (Datatypes.S xn)) (i_lpi st1)) by (apply NI; reflexivity).
+        assert (A7 : sm_inv S proj outside F M (Z.of_nat (Datatypes.S xn)) (i_sm st1)) by (unfold st1; cbn [i_sm]; exact I').
+        assert (A9 : proto (Z.of_nat (Datatypes.S xn)) (Z.of_nat (Datatypes.S n))) by (unfold proto; left; lia).
         assert (A8 : (Gn + 1 - Datatypes.S xn <= f)%nat) by lia.
-        destruct (IH (Datatypes.S xn) (Datatypes.S n) st1 (Out (proj (g (Datatypes.S xn)))) A1 A2 A3 A4 A5 A6 A7 A8) as [R1 R2].
+        destruct (IH (Datatypes.S xn) (Datatypes.S n) (Z.of_nat (Datatypes.S xn)) st1 (Out (proj (g (Datatypes.S xn)))) A1 A2 A3 A4 A5 A6 ltac:(lia) A7 P2 A9 A8) as [R1 R2].
         rewrite R1. split; [|exact R2]. rewrite Hq. destruct (Qltb (csum (Datatypes.S (Datatypes.S xn))) u); reflexivity.
       + apply Z.ltb_ge in LM. assert (HM : Z.of_nat n = M) by lia.
         match goal with |- context [inv_loop _ _ _ _ _ f u _ _ ?st' _] => set (st1 := st') end.
@@ -240,18 +192,20 @@ Section InversionAdmissible.
         assert (A5 : n = Datatypes.S (Datatypes.S xn) \/ (Z.of_nat n = M /\ (n <= Datatypes.S (Datatypes.S xn))%nat)).
         { right. split; [assumption|]. destruct Hst as [Hst|[_ Hst]]; lia. }
         assert (A6 : (Datatypes.S (Datatypes.S xn) <= Gn)%nat) by lia.
-        assert (A7 : NextInv (Datatypes.S (Datatypes.S xn)) (i_lpi st1)) by (apply NI; reflexivity).
+        assert (A7 : sm_inv S proj outside F M (Z.of_nat (Datatypes.S xn)) (i_sm st1)) by (unfold st1; cbn [i_sm]; exact I').
+        assert (A9 : proto (Z.of_nat (Datatypes.S xn)) (Z.of_nat n)).
+        { unfold proto. right. left. destruct Hst as [Hst|[_ Hst]]; lia. }
         assert (A8 : (Gn + 1 - Datatypes.S xn <= f)%nat) by lia.
-        destruct (IH (Datatypes.S xn) n st1 (Out (proj (g (Datatypes.S xn)))) Hn HnM A3 A4 A5 A6 A7 A8) as [R1 R2].
+        destruct (IH (Datatypes.S xn) n (Z.of_nat (Datatypes.S xn)) st1 (Out (proj (g (Datatypes.S xn)))) Hn HnM A3 A4 A5 A6 ltac:(lia) A7 P2 A9 A8) as [R1 R2].
         rewrite R1. split; [|exact R2]. rewrite Hq. destruct (Qltb (csum (Datatypes.S (Datatypes.S xn))) u); reflexivity.
   Qed.
 
-  Hypothesis F_bound : (Z.of_nat Gn <= F + 1)%Z.   (* at most F + 1 admissible indices: holds by construction, see G_bound *)
+  Hypothesis F_bound : (Z.of_nat Gn <= F + 1)%Z.
 
   Lemma step_correct st u : Inv st ->
-    snd (inv_step proj inside F prob M st u) = adm_spec u /\ Inv (fst (inv_step proj inside F prob M st u)).
+    snd (inv_step proj outside F prob M st u) = adm_spec u /\ Inv (fst (inv_step proj outside F prob M st u)).
   Proof.
-    intros (n & Hn & HnM & Hc & Hs & Hl). unfold inv_step, adm_spec. rewrite Hc, cums_last by lia.
+    intros (n & prev & Hn & HnM & Hc & Hs & Hprev & I & Pn). unfold inv_step, adm_spec. rewrite Hc, cums_last by lia.
     destruct (Qltb (csum n) u) eqn:C.
     - unfold zlen. rewrite cums_length.
       destruct n as [|xn]; [lia|]. replace (Z.of_nat (Datatypes.S xn) - 1)%Z with (Z.of_nat xn) by lia.
@@ -259,18 +213,18 @@ Section InversionAdmissible.
       + (* everything is stored: the very first project call signals exhaustion *)
         destruct (Z.to_nat (F + 3)) as [|f] eqn:Ef; [lia|]. cbn [inv_loop]. rewrite C.
         replace (Z.of_nat xn + 1)%Z with (Z.of_nat (Datatypes.S xn)) by lia.
-        pose proof (project_next (Datatypes.S xn) (i_lpi st) Hl) as PN. rewrite (skipn_all (Datatypes.S xn)) in PN by lia.
-        destruct PN as (lpi' & E & Hl' & Hl2). rewrite E. cbn [fst snd]. split.
+        destruct (call_next prev (i_sm st) (Z.of_nat (Datatypes.S xn)) Hprev I Pn) as [E I'].
+        rewrite Nat2Z.id, nth_error_G in E.
+        assert ((Datatypes.S xn <? Gn)%nat = false) as Hlt by (apply Nat.ltb_ge; lia). rewrite Hlt in E. rewrite E. cbn [fst snd]. split.
         * apply Qltb_lt in C. replace Gn with (Datatypes.S xn + 0)%nat by lia.
           rewrite (search_skip u (Datatypes.S xn) 0); [reflexivity|].
           intros t Ht. assert (csum (Datatypes.S t) <= csum (Datatypes.S xn)) by (apply csum_mono; lia). lra.
-        * exists (Datatypes.S xn). cbn [i_cum i_states i_lpi]. repeat split; try assumption; try lia.
-          destruct (Z.eq_dec (Z.of_nat (Datatypes.S xn)) M) as [EM|NM]; [left; split; [assumption | lia]|].
-          right. split; [assumption|]. split; [lia|]. unfold GG. rewrite sm_G_empty by lia. symmetry. apply skipn_all. lia.
+        * apply (Inv_intro _ (Datatypes.S xn) (Z.of_nat (Datatypes.S xn))); cbn [i_cum i_states i_sm]; try assumption; try lia.
+          unfold proto. right. right. lia.
       + assert (A5 : Datatypes.S xn = Datatypes.S xn \/ (Z.of_nat (Datatypes.S xn) = M /\ (Datatypes.S xn <= Datatypes.S xn)%nat)) by (left; reflexivity).
         assert (A6 : (Datatypes.S xn <= Gn)%nat) by lia.
         assert (A8 : (Gn + 1 - xn <= Z.to_nat (F + 3))%nat) by lia.
-        destruct (loop_correct u (Z.to_nat (F + 3)) xn (Datatypes.S xn) st NoOut Hn HnM Hc Hs A5 A6 Hl A8) as [R1 R2].
+        destruct (loop_correct u (Z.to_nat (F + 3)) xn (Datatypes.S xn) prev st NoOut Hn HnM Hc Hs A5 A6 Hprev I Pn Pn A8) as [R1 R2].
         rewrite R1, C. split; [|exact R2]. f_equal. apply Qltb_lt in C.
         replace Gn with (Datatypes.S xn + (Gn - Datatypes.S xn))%nat at 2 by lia.
         rewrite (search_skip u (Datatypes.S xn) 0); [reflexivity|].
@@ -285,25 +239,23 @@ Section InversionAdmissible.
       + unfold adm_spec. rewrite (search_first u Gn 0 r); [reflexivity | lia | |].
         * specialize (R3 r ltac:(lia)). rewrite cums_nth in R3 by lia. exact R3.
         * intros t Ht. specialize (R2 t ltac:(lia)). rewrite cums_nth in R2 by lia. exact R2.
-      + exists n. repeat split; try assumption; try lia.
+      + apply (Inv_intro st n prev); assumption.
   Qed.
 
-  Lemma init_inv st : inv_init proj inside F prob = Some st -> Inv st.
+  Lemma init_inv st : inv_init proj outside F prob = Some st -> Inv st.
   Proof.
-    unfold inv_init. rewrite my_search_spec by lia. unfold GG. rewrite sm_G_0. fold G.
-    case_eq G; [intros EG; discriminate | intros i rest EG]. intro E. inversion E; subst; clear E.
-    assert (E0 : sm_G S proj outside F 0 = i :: rest) by (rewrite sm_G_0; exact EG).
-    destruct (GG_head 0 i rest E0) as (H1 & _ & H3).
-    assert (Hg0 : g 0 = i) by (unfold g; rewrite EG; reflexivity).
-    assert (HGn : Gn = Datatypes.S (length rest)) by (unfold Gn; rewrite EG; reflexivity).
-    exists 1%nat. cbn [i_cum i_states i_lpi]. split; [lia|]. split; [lia|].
-    split; [unfold cums; simpl; unfold P; rewrite Hg0; reflexivity|]. split; [unfold sts; simpl; rewrite Hg0; reflexivity|].
-    destruct (Z.eq_dec (Z.of_nat 1) M) as [EM|NM]; [left; split; [assumption | lia]|].
-    right. split; [assumption|]. split; [lia|]. rewrite <- H3, EG. reflexivity.
+    unfold inv_init.
+    destruct (sm_step_protocol S proj outside F M (-1) sm_init 0 (-1) storage_pos ltac:(lia) (sm_inv_init S proj outside F M storage_pos)
+                ltac:(right; lia) ltac:(left; lia)) as [E I].
+    fold G in E. change (Z.to_nat 0) with O in E. rewrite nth_error_G in E.
+    set (r := sm_step_index S proj outside F sm_init 0 (-1)) in *. rewrite E.
+    destruct (0 <? Gn)%nat eqn:L; [|discriminate]. apply Nat.ltb_lt in L.
+    intro H. inversion H; subst; clear H. apply (Inv_intro _ 1%nat 0%Z); cbn [i_cum i_states i_sm]; try lia; try reflexivity; try exact I.
+    unfold proto. left. lia.
   Qed.
 
-  Theorem inversion_adm_history_free st : reachable proj inside F prob M st -> forall u,
-    snd (inv_step proj inside F prob M st u) = adm_spec u.
+  Theorem inversion_adm_history_free st : reachable proj outside F prob M st -> forall u,
+    snd (inv_step proj outside F prob M st u) = adm_spec u.
   Proof.
     intros R u. assert (I : Inv st).
     { induction R as [st E | st u0 R IH]; [apply init_inv; assumption | apply step_correct; assumption]. }
@@ -325,9 +277,9 @@ Section InversionAdmissible.
     apply (H []).
   Qed.
 
-  Lemma G_spec i : In i G <-> (0 <= i <= F)%Z /\ inside (proj i) = true.
+  Lemma G_spec i : In i G <-> (0 <= i <= F)%Z /\ outside (proj i) = false.
   Proof.
-    unfold G. rewrite sm_good_spec. unfold outside. destruct (inside (proj i)); simpl; intuition congruence.
+    unfold G. apply sm_good_spec.
   Qed.
 
   Theorem inversion_adm_law :
@@ -347,78 +299,30 @@ Section InversionAdmissible.
   Qed.
 End InversionAdmissible.
 
-(* ---------- when is the restart harmless? ---------- *)
-Lemma G_length_bound {S : Type} (proj : Z -> S) (inside : S -> bool) (F : Z) : (0 <= F)%Z ->
-  (Z.of_nat (length (G proj inside F)) <= F + 1)%Z.
+Lemma G_length_bound {S : Type} (proj : Z -> S) (outside : S -> bool) (F : Z) : (0 <= F)%Z ->
+  (Z.of_nat (length (G proj outside F)) <= F + 1)%Z.
 Proof.
   intro H. unfold G, sm_good.
   assert (L : forall (f : Z -> bool) l, (length (filter f l) <= length l)%nat).
   { intros f l. induction l as [|x l IH]; simpl; [lia|]. destruct (f x); simpl; lia. }
-  pose proof (L (sm_ok S proj (fun s => negb (inside s))) (zrange (F + 1))) as Hl.
+  pose proof (L (sm_ok S proj outside) (zrange (F + 1))) as Hl.
   unfold zrange in Hl at 2. rewrite map_length, seq_length in Hl. lia.
 Qed.
 
-(* (i) the storage never fills *)
-Lemma reset_ok_large_storage {S : Type} (proj : Z -> S) (inside : S -> bool) (F M : Z) :
-  (Z.of_nat (length (G proj inside F)) < M)%Z ->
-  forall j, Z.of_nat j = M -> (j <= length (G proj inside F))%nat -> GG proj inside F (Z.of_nat j) = skipn j (G proj inside F).
-Proof. intros H j E Hj. lia. Qed.
-
-(* (ii) every index of [0, F] is admissible (1-d chains; centred square grids enumerated by Szudzik) *)
-Lemma GG_all_inside {S : Type} (proj : Z -> S) (inside : S -> bool) (F : Z) :
-  (forall i, (0 <= i <= F)%Z -> inside (proj i) = true) ->
-  forall n a, (0 <= a)%Z -> Z.to_nat (F + 1 - a) = n -> GG proj inside F a = map (fun k => (a + Z.of_nat k)%Z) (seq 0 n).
-Proof.
-  intros H. induction n as [|n IH]; intros a Ha E.
-  - unfold GG. rewrite sm_G_empty by lia. reflexivity.
-  - unfold GG. rewrite sm_G_unfold by lia. unfold sm_ok. rewrite H by lia. cbn [negb].
-    fold (GG proj inside F (a + 1)). rewrite (IH (a + 1)%Z) by lia. cbn [seq map]. f_equal; [lia|].
-    rewrite <- seq_shift, map_map. apply map_ext. intros. lia.
-Qed.
-
-Lemma reset_ok_all_inside {S : Type} (proj : Z -> S) (inside : S -> bool) (F M : Z) : (0 <= F)%Z ->
-  (forall i, (0 <= i <= F)%Z -> inside (proj i) = true) ->
-  forall j, Z.of_nat j = M -> (j <= length (G proj inside F))%nat -> GG proj inside F (Z.of_nat j) = skipn j (G proj inside F).
-Proof.
-  intros HF H j _ Hj.
-  assert (EG : G proj inside F = map (fun k => (0 + Z.of_nat k)%Z) (seq 0 (Z.to_nat (F + 1)))).
-  { unfold G. rewrite <- sm_G_0. apply (GG_all_inside proj inside F H); lia. }
-  rewrite EG in Hj |- *. rewrite map_length, seq_length in Hj.
-  rewrite (GG_all_inside proj inside F H (Z.to_nat (F + 1) - j)%nat) by lia.
-  assert (Sk : forall n j0, (j0 <= n)%nat -> skipn j0 (seq 0 n) = seq j0 (n - j0)).
-  { intros n j0 Hle. replace n with (j0 + (n - j0))%nat at 1 by lia. rewrite seq_app, skipn_app, seq_length, Nat.sub_diag.
-    rewrite skipn_all2 by (rewrite seq_length; lia). reflexivity. }
-  assert (Sh : forall m j0, seq j0 m = map (fun k => (j0 + k)%nat) (seq 0 m)).
-  { induction m as [|m IHm]; intro j0; [reflexivity|]. cbn [seq map]. f_equal; [lia|].
-    rewrite (IHm (Datatypes.S j0)), <- seq_shift, map_map. apply map_ext. intros. lia. }
-  rewrite skipn_map, Sk by assumption. rewrite (Sh _ j), map_map. apply map_ext. intros. lia.
-Qed.
-
-(* ---------- the combined statement ---------- *)
-Definition restart_harmless {S : Type} (proj : Z -> S) (inside : S -> bool) (F M : Z) : Prop :=
-  forall j, Z.of_nat j = M -> (j <= length (G proj inside F))%nat -> GG proj inside F (Z.of_nat j) = skipn j (G proj inside F).
-
-Theorem inversion_admissible_full {S : Type} (proj : Z -> S) (inside : S -> bool) (F : Z) (prob : S -> Q) (M : Z) :
-  (forall s, 0 <= prob s) -> (1 <= M)%Z -> (0 <= F)%Z -> restart_harmless proj inside F M ->
-  let segs := adm_segs' proj inside F prob in
-  (forall st, reachable proj inside F prob M st -> forall u,
-     snd (inv_step proj inside F prob M st u) = match locate_r 0 segs u with Some i => Out (proj i) | None => Frontier end)
-  /\ (forall i, In i (G proj inside F) <-> (0 <= i <= F)%Z /\ inside (proj i) = true)
-  /\ (forall i, In i (G proj inside F) -> len_of i segs == prob (proj i))
+(* ---------- the combined statement: every enumeration, every _max_storage >= 1, every history ---------- *)
+Theorem inversion_admissible_full {S : Type} (proj : Z -> S) (outside : S -> bool) (F : Z) (prob : S -> Q) (M : Z) :
+  (forall s, 0 <= prob s) -> (1 <= M)%Z -> (0 <= F)%Z ->
+  let segs := adm_segs' proj outside F prob in
+  (forall st, reachable proj outside F prob M st -> forall u,
+     snd (inv_step proj outside F prob M st u) = match locate_r 0 segs u with Some i => Out (proj i) | None => Frontier end)
+  /\ (forall i, In i (G proj outside F) <-> (0 <= i <= F)%Z /\ outside (proj i) = false)
+  /\ (forall i, In i (G proj outside F) -> len_of i segs == prob (proj i))
   /\ seg_nonneg segs
-  /\ (forall u i, 0 < u -> In i (G proj inside F) -> prob (proj i) == 0 -> locate_r 0 segs u <> Some i).
+  /\ (forall u i, 0 < u -> In i (G proj outside F) -> prob (proj i) == 0 -> locate_r 0 segs u <> Some i).
 Proof.
-  intros Hp HM HF HR segs.
-  destruct (inversion_adm_law proj inside F prob Hp) as (A1 & A2 & A3 & A4).
+  intros Hp HM HF segs.
+  destruct (inversion_adm_law proj outside F prob Hp) as (A1 & A2 & A3 & A4).
   split; [|split; [intro i; apply G_spec | split; [exact A2 | split; [exact A3 | exact A4]]]].
-  intros st R u. rewrite (inversion_adm_history_free proj inside F prob M Hp HM HR (G_length_bound proj inside F HF) st R u).
+  intros st R u. rewrite (inversion_adm_history_free proj outside F prob M Hp HM (G_length_bound proj outside F HF) st R u).
   apply A1.
-Qed.
-
-Corollary restart_harmless_cases {S : Type} (proj : Z -> S) (inside : S -> bool) (F M : Z) : (0 <= F)%Z ->
-  (forall i, (0 <= i <= F)%Z -> inside (proj i) = true) \/ (Z.of_nat (length (G proj inside F)) < M)%Z ->
-  restart_harmless proj inside F M.
-Proof.
-  intros HF [H|H]; unfold restart_harmless; intros j Ej Hj;
-    [apply (reset_ok_all_inside proj inside F M HF H j Ej Hj) | apply (reset_ok_large_storage proj inside F M H j Ej Hj)].
 Qed.
